@@ -1654,7 +1654,11 @@ fn resolve_value_reference<'a>(
                     module: None,
                     parent: None,
                     identifier,
-                } => current = identifier,
+                } if matches!(tlds.get(identifier), Some(ToplevelDefinition::Value(_))) => {
+                    current = identifier
+                }
+                // Anything else, including an identifier that is a named number
+                // or enumeral of the governing type, is for the caller to link
                 value => return Some(value),
             },
             _ => return None,
